@@ -76,6 +76,10 @@ func c05Scenarios() []scenario {
 	mixed := []string{"ab", "\x1b[<0;2;1M", "c\x1b[200~", "de\x1b[201~", "\x1b[I", "x\x1b[O", "\x1b[<0;3;2m", "gh\x1b[<32;0;-3M", "ijkl"} // the last report: pointer left of / above the window
 	add(c05p{kind: "slow", chunks: mixed, expect: "abMcPdepFxfMghMijkl", modes: true})
 	add(c05p{kind: "free", chunks: []string{"a\x1b[<0;2;1M", "\x1b[200~b\x1b[201~", "\x1b[I\x1b[O", "c"}, expect: "aMPbpFfc", modes: true})
+	// an Esc key press directly before a report, behind other keys of the same read ('?' = a
+	// key that is no rune: the Esc): in input order
+	add(c05p{kind: "slow", chunks: []string{"ab\x1b\x1b[I", "c"}, expect: "ab?Fc", modes: true})
+	add(c05p{kind: "free", chunks: []string{"ab\x1b\x1b[<0;2;1M", "c"}, expect: "ab?Mc", modes: true})
 	for _, pre := range []int{8, 9, 10} {
 		add(c05p{kind: "fullposts", k: 1, posters: 2, posts: 2, prefill: pre})
 	}
